@@ -212,7 +212,8 @@ def _h_transform(ctx, m, gi, nan_mode, output_dtype, dropna, probe, props):
             rows_f = s.loc["f"] if "f" in s.index.get_level_values(0) else None
             ctx.require(rows_f is not None, "C16.summary-missing-feature", "summary() has no row for the feature")
             labels_s = list(s["label"])
-            exp_rows = g + (1 if has_nan and nan_group is None and dropna else 0)
+            # a NaN modality kept on its own is a fitted group of values_orders: it may have its row
+            exp_rows = g + (1 if has_nan and nan_group is None else 0)
             ctx.require(len(labels_s) == exp_rows, "C16.summary-rows", f"summary has {len(labels_s)} rows for {exp_rows} groups: {s.to_dict('records')}")
             for lab, content in zip(s["label"], s["content"]):
                 if has_nan and nan_group is not None and bool(eqv(lab, group_labels[nan_group])):
